@@ -193,7 +193,8 @@ macro_rules! builder {
         }
         "from_iter" => {
           let vals = ast.vals();
-          let it = CountIter { items: vals, pos: 0, sh: sh.clone(), c: b };
+          // an IntoIterator whose conversion is observable (C13: it happens at subscription, once per subscription)
+          let it = CountSrc { items: vals, sh: sh.clone(), c: b };
           observable::from_iter(it).on_error_map(inf).box_it()
         }
         "repeat" => observable::repeat(ast.v.clone(), a as usize).on_error_map(inf).box_it(),
@@ -351,6 +352,8 @@ macro_rules! builder {
           src(ast.s1)
             .$finalize(move || {
               sh.bump(b);
+              // its place among the notifications is an observation
+              sh.record(0, 'F', Val::U);
               if let Some((s, v)) = feed.as_ref() {
                 s.clone().next(v.clone())
               }
@@ -443,6 +446,23 @@ pub struct CountIter {
   pos: usize,
   sh: Arc<Shared>,
   c: i64,
+}
+/// the collection handed to `from_iter`: converting it into an iterator is counted (counter 8) for the counting source
+#[derive(Clone)]
+pub struct CountSrc {
+  items: Vec<Val>,
+  sh: Arc<Shared>,
+  c: i64,
+}
+impl IntoIterator for CountSrc {
+  type Item = Val;
+  type IntoIter = CountIter;
+  fn into_iter(self) -> CountIter {
+    if self.c == 7 {
+      self.sh.bump(8);
+    }
+    CountIter { items: self.items, pos: 0, sh: self.sh, c: self.c }
+  }
 }
 impl Iterator for CountIter {
   type Item = Val;
